@@ -63,7 +63,9 @@ const (
 	CertExpired
 )
 
-func (k CertKind) String() string { return [...]string{"valid", "self-signed", "wrong-name", "expired"}[k] }
+func (k CertKind) String() string {
+	return [...]string{"valid", "self-signed", "wrong-name", "expired"}[k]
+}
 
 // Cert returns a (cached) certificate of the given kind for host.
 func (p *PKI) Cert(host string, kind CertKind) tls.Certificate {
@@ -104,13 +106,13 @@ func (p *PKI) Cert(host string, kind CertKind) tls.Certificate {
 
 // MXPlan scripts one server.
 type MXPlan struct {
-	LMTP        bool
-	StartTLS    bool // advertise STARTTLS
-	TLSFails    bool // handshake fails after STARTTLS is accepted
-	Cert        CertKind
-	SMTPUTF8    bool
-	RequireTLS  bool
-	EnhCodes    bool
+	LMTP       bool
+	StartTLS   bool // advertise STARTTLS
+	TLSFails   bool // handshake fails after STARTTLS is accepted
+	Cert       CertKind
+	SMTPUTF8   bool
+	RequireTLS bool
+	EnhCodes   bool
 	// Reply plan per connection/transaction counters (index = n-th use; last repeats)
 	Greeting []Outcome
 	Mail     []Outcome
